@@ -1,10 +1,13 @@
 // Instantiation TU for C19: by-value entry wrappers around the member functions of the STL-free containers.
+#include <new>      // utl::either::operator= uses placement new
 #include "nmtools/utl/static_vector.hpp"
 #include "nmtools/utl/array.hpp"
 #include "nmtools/utl/vector.hpp"
 #include "nmtools/utl/maybe.hpp"
 #include "nmtools/utl/either.hpp"
 #include "nmtools/utl/tuple.hpp"
+#include "nmtools/utl/tuplev2.hpp"
+#include "nmtools/utility/utl/get_if.hpp"
 
 namespace utl = nmtools::utl;
 using sv_t  = nmtools::utl::static_vector<nm_size_t,8>;
@@ -57,6 +60,7 @@ nm_size_t verif_mb_value_of(mb_t m) { const mb_t& c = m; return c.value(); }
 // ---------------------------------------------------------------- either<size_t,int>  (trivial alternatives)
 using ei_t = nmtools::utl::either<nm_size_t,int>;
 struct ei_probe_t { bool has_left; bool has_right; nm_size_t left; int right; int index; };
+using eip_t = ei_probe_t;
 ei_t verif_ei_default() { ei_t e; return e; }
 ei_t verif_ei_left(nm_size_t x) { ei_t e(x); return e; }
 ei_t verif_ei_right(int y) { ei_t e(y); return e; }
@@ -67,24 +71,24 @@ ei_t verif_ei_assign_left(ei_t e, nm_size_t x) { e = x; return e; }
 ei_t verif_ei_assign_right(ei_t e, int y) { e = y; return e; }
 ei_probe_t verif_ei_probe(ei_t e)
 {
-    const nm_size_t* l = e.get_if<nm_size_t>();
+    const unsigned long* l = e.get_if<nm_size_t>();
     const int* r = e.get_if<int>();
     ei_probe_t p = { l != nullptr, r != nullptr, l ? *l : (nm_size_t)0, r ? *r : 0, e.index() };
     return p;
 }
 ei_probe_t verif_ei_probe_free(ei_t e)
 {
-    const nm_size_t* l = nmtools::get_if<nm_size_t>(&e);
+    const unsigned long* l = nmtools::get_if<nm_size_t>(&e);
     const int* r = nmtools::get_if<int>(&e);
     ei_probe_t p = { l != nullptr, r != nullptr, l ? *l : (nm_size_t)0, r ? *r : 0, e.index() };
     return p;
 }
 
 // ---------------------------------------------------------------- tuple / tuplev2
-#include "nmtools/utl/tuplev2.hpp"
 using tp_t  = nmtools::utl::tuple<nm_size_t,int,nm_size_t>;
 using tp2_t = nmtools::utl::tuplev2<nm_size_t,int,nm_size_t>;
 struct tp_probe_t { nm_size_t e0; int e1; nm_size_t e2; };
+using tpp_t = tp_probe_t;
 tp_probe_t verif_tp_get(nm_size_t a, int b, nm_size_t c)
 {
     tp_t t(a,b,c);
@@ -128,5 +132,116 @@ tp_probe_t verif_tp2_copy_write(nm_size_t a, int b, nm_size_t c, int y)
     utl::get<0>(t) = 0;
     const tp2_t& cu = u;
     tp_probe_t p = { utl::get<0>(cu), utl::get<1>(cu), utl::get<2>(cu) };
+    return p;
+}
+
+// ---------------------------------------------------------------- vector<size_t>  (heap; objects live inside the wrapper)
+using vec_t = nmtools::utl::vector<nm_size_t>;
+struct vec_probe_t { nm_size_t size; nm_size_t at_i; nm_size_t size2; nm_size_t at2_i; };
+using vecp_t = vec_probe_t;
+
+
+// sized construction, element write, read back; destructor runs at scope exit
+vecp_t verif_vec_sized(nm_size_t n, nm_size_t i, nm_size_t x)
+{
+    vec_t v(n);
+    if (i < n) { v[i] = x; }
+    vecp_t p = { v.size(), (i < n) ? v.at(i) : x, 0, 0 };
+    return p;
+}
+// std::vector<T>(n) value-initialises its elements
+nm_size_t verif_vec_sized_init(nm_size_t n, nm_size_t i)
+{
+    vec_t v(n);
+    return (i < n) ? v[i] : 0;
+}
+// default construction + 5 push_backs (growth across the initial capacity of 4)
+vecp_t verif_vec_push5(nm_size_t x, nm_size_t i)
+{
+    vec_t v;
+    v.push_back(x); v.push_back(x + 1); v.push_back(x + 2); v.push_back(x + 3); v.push_back(x + 4);
+    vecp_t p = { v.size(), (i < 5) ? v[i] : 0, 0, 0 };
+    return p;
+}
+// resize (shrink or grow, with reallocation when m exceeds the capacity): size == m, common prefix preserved
+vecp_t verif_vec_resize(nm_size_t n, nm_size_t m, nm_size_t i, nm_size_t x)
+{
+    vec_t v(n);
+    if (i < n) { v[i] = x; }
+    v.resize(m);
+    vecp_t p = { v.size(), (i < n && i < m) ? v[i] : x, 0, 0 };
+    return p;
+}
+// resize growth: std::vector appends value-initialised elements
+nm_size_t verif_vec_resize_fill(nm_size_t n, nm_size_t m, nm_size_t i)
+{
+    vec_t v(n);
+    v.resize(m);
+    return (n <= i && i < m) ? v[i] : 0;
+}
+// shrink-then-grow inside the capacity: std::vector gives zeros in the regrown tail
+nm_size_t verif_vec_shrink_grow(nm_size_t x)
+{
+    vec_t v;
+    v.push_back(x); v.push_back(x);
+    v.resize(1);
+    v.resize(2);
+    return v[1];
+}
+// push_back after resize
+vecp_t verif_vec_resize_push(nm_size_t n, nm_size_t m, nm_size_t x, nm_size_t y, nm_size_t i)
+{
+    vec_t v(n);
+    if (i < n) { v[i] = x; }
+    v.resize(m);
+    v.push_back(y);
+    vecp_t p = { v.size(), (i < n && i < m) ? v[i] : x, v[m], 0 };
+    return p;
+}
+// copy construction: equal contents, independent of the source; both destructors run (no double free)
+vecp_t verif_vec_copy(nm_size_t n, nm_size_t i, nm_size_t x, nm_size_t y)
+{
+    vec_t v(n);
+    if (i < n) { v[i] = x; }
+    vec_t c(v);
+    if (i < n) { v[i] = y; }
+    vecp_t p = { c.size(), (i < n) ? c[i] : x, v.size(), (i < n) ? v[i] : y };
+    return p;
+}
+// copy assignment between vectors of different sizes: equal contents, independent of the source
+vecp_t verif_vec_assign(nm_size_t n, nm_size_t m, nm_size_t i, nm_size_t x, nm_size_t y)
+{
+    vec_t v(n);
+    vec_t w(m);
+    if (i < n) { v[i] = x; }
+    w = v;
+    if (i < n) { v[i] = y; }
+    vecp_t p = { w.size(), (i < n) ? w[i] : x, v.size(), (i < n) ? v[i] : y };
+    return p;
+}
+// self-assignment is harmless
+vecp_t verif_vec_self_assign(nm_size_t n, nm_size_t i, nm_size_t x)
+{
+    vec_t v(n);
+    if (i < n) { v[i] = x; }
+    v = v;
+    vecp_t p = { v.size(), (i < n) ? v[i] : x, 0, 0 };
+    return p;
+}
+// v = v on an arbitrary vector (contract in contracts/c19.spec)
+void verif_vecop_self_assign(vec_t& v) { v = v; }
+// vector(0) that is grown afterwards: push_back reallocates and releases the zero-byte block
+vecp_t verif_vec_zero_push(nm_size_t x)
+{
+    vec_t v(0);
+    v.push_back(x);
+    vecp_t p = { v.size(), v[0], 0, 0 };
+    return p;
+}
+// variadic construction
+vecp_t verif_vec_variadic(nm_size_t a, nm_size_t b, nm_size_t c)
+{
+    vec_t v(a, b, c);
+    vecp_t p = { v.size(), v[0], v[1], v[2] };
     return p;
 }
